@@ -160,6 +160,15 @@ def arith_cases(r, quick, scale):
         pairs += [(r.choice(fixed), r.choice([0, 1, -1, 2, -2, MINI, MAXI])) for _ in range(nbin // 4)]
         for a, b in pairs:
             add_case("bin", op, a, b)
+    # the full cross product of the edge operands the property names (and their negations: equal magnitudes matter for / and %)
+    core = sorted({0, 1, -1, 2, -2, MINI - 1, MINI, MINI + 1, -MINI, MAXI - 1, MAXI, MAXI + 1, -MAXI, 2 ** 64, -2 ** 64, ISQ, -ISQ, ISQ + 1, 2 ** 32, -2 ** 32, 2 ** 31, 2 ** 32 - 1})
+    for op in BIN_OPS:
+        for a in core:
+            for b in core:
+                add_case("bin", op, a, b)
+        for a in r.sample(pool, 40 if quick else 400):      # equal and opposite magnitudes
+            add_case("bin", op, a, -a)
+            add_case("bin", op, a, a)
     for op in REL_OPS:
         pairs = [(r.choice(pool), r.choice(pool)) for _ in range(nrel)]
         pairs += structured_pairs(r, op, nrel, pool)
